@@ -333,3 +333,10 @@ for (_kls, _wc), _fn in _c15.LTI_CONTRACTS.items():
     if _wc:
         obligation(f'C14.callee.{_kls}.{"affine" if _wc is True else "c1_only"}', functions=[f'{DYN}:{_kls}.__init__', f'{DYN}:LTI.state_transition', f'{DYN}:LTI.observation'],
                    note='callee contract assumed by the C14 obligations (same contract function as C15)')(_fn)
+
+
+# LQR starts its roll-outs with system.reset() and means step 0 by it - "independently of earlier calls made on the same system object,
+# whatever its time counter" rests on reset() / reset(k) / systime being what C15 states (reset() -> 0 also after an earlier reset(k)):
+# the clock contract of c15_dynamics.py, discharged in this check too.
+obligation('C14.callee.System.time', functions=['pypose.module.dynamics:System.reset', 'pypose.module.dynamics:System.systime', 'pypose.module.dynamics:System.forward_hook'],
+           note='callee contract of the roll-outs of LQR (same contract function as C15.System.time)')(_c15.time_)
